@@ -415,3 +415,33 @@ func (w *World) VerifCheckInvariants() error {
 	}
 	return nil
 }
+
+// VerifAliveEntities lists all entities stored in active archetypes, in storage order,
+// without opening a query (so that the world's lock state is not touched).
+func (w *World) VerifAliveEntities() []Entity {
+	res := []Entity{}
+	ln := w.nodes.Len()
+	var i int32
+	for i = 0; i < ln; i++ {
+		nd := w.nodes.Get(i)
+		if !nd.IsActive {
+			continue
+		}
+		arches := nd.Archetypes()
+		cnt := arches.Len()
+		var j int32
+		for j = 0; j < cnt; j++ {
+			a := arches.Get(j)
+			var r uint32
+			for r = 0; r < a.len; r++ {
+				res = append(res, a.GetEntity(r))
+			}
+		}
+	}
+	return res
+}
+
+// VerifNewEntity creates an entity handle from raw id and generation (for forged handles).
+func VerifNewEntity(id uint32, gen uint32) Entity {
+	return Entity{eid(id), gen}
+}
